@@ -38,11 +38,17 @@ func newLiveScreen() (tcell.Screen, error) {
 	return s, nil
 }
 
+// closeScreen shrinks and finalizes a screen that is no longer needed (the
+// js.FuncOf callbacks keep it reachable).  Guarded: it must never hang the run.
 func closeScreen(s tcell.Screen) {
-	defer func() { _ = recover() }()
-	drain(s)
-	s.SetSize(0, 0)
-	s.Fini()
+	if s == nil {
+		return
+	}
+	guarded(fullGuard, func() {
+		drain(s)
+		s.SetSize(0, 0)
+		s.Fini()
+	})
 }
 
 // nextEvent waits (cooperatively) until an event is pending and returns it; nil
